@@ -47,6 +47,7 @@ func VerifC07_aggregate_step() {
 		cyc      bool
 		nonce0   uint64
 		hadNonce bool
+		mode     bool
 	}
 	rounds := make([]round, nq)
 	tips := math.ZeroInt()
@@ -54,6 +55,11 @@ func VerifC07_aggregate_step() {
 		qd := c07QueryData("SpotPrice", []byte(c02Names[qi]))
 		r := round{qid: utils.QueryIDFromData(qd), id: uint64(5 + qi), exp: ndUint64(nm("expiration", qi)), tip: ndBigInt(nm("tip", qi)),
 			nrep: ndLen(nm("nreports", qi), 2), cyc: ndBool(nm("cyclelist", qi)), hadNonce: ndBool(nm("hasHistory", qi)), nonce0: ndUint64(nm("nonce", qi))}
+		// a round may belong to a weighted-mode query (values need not be numbers); quick: at most one of the rounds
+		r.mode = ndBool(nm("weightedMode", qi))
+		if qi == 1 && ndTier() == 0 {
+			ndAssume(!(r.mode && rounds[0].mode))
+		}
 		if qi == 1 && ndTier() == 0 {
 			// quick: the second round has at most one report, is not a cycle-list round and has a history
 			ndAssume(r.nrep <= 1)
@@ -76,7 +82,7 @@ func VerifC07_aggregate_step() {
 			addr, err := sdk.AccAddressFromBech32(who)
 			must(err)
 			must(k.Reports.Set(ctx, collections.Join3(r.qid, addr.Bytes(), r.id), types.MicroReport{Reporter: who, Power: uint64(10 * (ri + 1)), QueryType: "SpotPrice",
-				QueryId: r.qid, AggregateMethod: "weighted-median", Value: ndHexVal(nm(nm("value", qi), ri)), Timestamp: time.UnixMilli(1).UTC(), Cyclelist: r.cyc, BlockNumber: uint64(1 + ri)}))
+				QueryId: r.qid, AggregateMethod: c07Method(r.mode), Value: c07RoundValue(r.mode, qi, ri), Timestamp: time.UnixMilli(1).UTC(), Cyclelist: r.cyc, BlockNumber: uint64(1 + ri)}))
 		}
 		tips = tips.Add(r.tip)
 		rounds[qi] = r
@@ -109,6 +115,9 @@ func VerifC07_aggregate_step() {
 				ndAssert(agg.MetaId == r.id && agg.Index == r.nonce0+1 && agg.Height == uint64(h), "aggregate-belongs-to-the-round-and-block")
 				ndAssert(len(agg.Reporters) == r.nrep && agg.ReporterPower == uint64(10*r.nrep*(r.nrep+1)/2), "aggregate-carries-every-report-of-the-round")
 				ndAssert(string(agg.QueryId) == string(r.qid) && !agg.Flagged, "aggregate-is-for-the-round's-query")
+				if r.mode {
+					ndAssert(agg.AggregateValue == "not a number", "a-weighted-mode-round-is-aggregated-by-mode")
+				}
 			}
 			paidTips = paidTips.Add(r.tip)
 			anyCyc = anyCyc || r.cyc
@@ -157,4 +166,20 @@ func must(err error) {
 	if err != nil {
 		panic(err)
 	}
+}
+
+
+func c07Method(mode bool) string {
+	if mode {
+		return "weighted-mode"
+	}
+	return "weighted-median"
+}
+
+// c07RoundValue: median rounds carry symbolic hex numbers; mode rounds carry a value that is not a number
+func c07RoundValue(mode bool, qi, ri int) string {
+	if mode {
+		return "not a number"
+	}
+	return ndHexVal(nm(nm("value", qi), ri))
 }
